@@ -14,6 +14,8 @@ NAMED = {
     "Other": [fld("Shared", STR), fld("Solo", BOOL)],
     "inner": [fld("Low", INT), fld("Name", STR)],
 }
+NAMED["Listener#1"] = [fld("Name", STR), fld("Port", INT, tag="listen"), fld("Iface", STR)]
+NAMED["Listener#2"] = [fld("Iface", STR, tag="listen"), fld("Name", STR), fld("Port", INT)]
 NAMED["WithInner"] = [fld("inner", dict(k="named", name="inner"), emb=True), fld("Port", INT)]
 NAMED["Tunnel"] = [fld("Name", STR), fld("Host", STR), fld("Port", INT), fld("On", BOOL), fld("Extras", dict(k="named", name="Extras"))]
 
@@ -48,7 +50,7 @@ def enc_type(t):
     if k == "slice":
         return F("L", enc_type(t["elem"]))
     if k in ("struct", "named"):
-        name = t["name"] if k == "named" else ""
+        name = t["name"].split("#")[0] if k == "named" else ""
         fs = [F(f["n"], ("1" if exported(f["n"]) else "0") + ("1" if f.get("emb") else "0"), f.get("tag", ""), enc_type(f["t"]))
               for f in type_fields(t)]
         return F("S", name, F(*fs))
@@ -268,6 +270,11 @@ def check_C15(ctx):
          [dict(t="a", n="", f=[["shared", "s78"], ["inner", dict(t="inner", n="", f=[["deep", "i7"]])]])]),   # different fields, same storage
         ("ptr", T(fld("Inner", dict(k="named", name="Inner"), emb=True)), "struct",
          [dict(t="a", n="", f=[["inner", dict(t="inner", n="", f=[["deep", "i7"], ["shared", "s78"]])]])]),
+        # two distinct types printing the same, bound one after the other in one process (state kept per type NAME would mix them)
+        ("ptr", dict(k="named", name="Listener#1"), "struct", [dict(t="listener", n="pub", f=[["listen", "i8080"], ["iface", "s65746830"]])]),
+        ("ptr", dict(k="named", name="Listener#2"), "struct", [dict(t="listener", n="priv", f=[["listen", "s65746831"], ["port", "i22"]])]),
+        ("ptr", dict(k="named", name="Listener#1"), "struct", [dict(t="listener", n="", f=[["listen", "i1"]])]),
+        ("ptr", dict(k="slice", elem=dict(k="named", name="Listener#2")), "slice", [dict(t="listener", n="a", f=[["listen", "s78"]]), dict(t="listener", n="b", f=[["port", "i2"]])]),
         ("ptr", T(fld("Xy", INT)), "struct", [dict(t="a", n="", f=[["x_y", "i1"], ["xy", "i2"]])]),
         ("ptr", T(fld("Xy", INT), fld("Z", STR)), "struct", [dict(t="a", n="", f=[["x_y", "s61"], ["z", "i2"]])]),
         ("ptr", T(fld("Foo_Bar", INT)), "struct", [dict(t="a", n="", f=[["foo_bar", "i1"]])]),
@@ -286,6 +293,9 @@ def check_C15(ctx):
         ("ptr", dict(k="slice", elem=T(fld("X", INT))), "slice", [dict(t="a", n="", f=[["x", "i1"]]), dict(t="a", n="", f=[["x", "s61"]])]),
         ("ptr", dict(k="slice", elem=T(fld("X", INT))), "slice", []),
     ]
+    long_blocks = [dict(t="a", n="n%d" % i, f=[["x", "i%d" % i]] + ([["oops%d" % i, "i1"]] if i == 67 or i >= 128 else [])) for i in range(256)]
+    corners.append(("ptr", dict(k="slice", elem=T(fld("Name", STR), fld("X", INT))), "slice", long_blocks))
+    corners.append(("ptr", dict(k="slice", elem=T(fld("Name", STR), fld("X", INT))), "slice", long_blocks[:60] + long_blocks[68:100]))
     for i, (mode, ty, bk, blks) in enumerate(corners):
         cases.append(dict(id="corner%d" % i, mode=mode, type=ty, bkind=bk, blocks=blks, prev=2))
     res, missing, err = ctx.probe("bind", cases)
